@@ -6,7 +6,7 @@ package files
 
 // ---- BufferedFile: a 4096-byte window onto v.file.data ----
 
-//@ pred bfInv(v *BufferedFile) := v != nil && v.file != nil && v.bufferSize == 4096 && len(v.buffer) == 4096 && v.buffer.ref != 0
+//@ pred bfInv(v *BufferedFile) := v != nil && v.file != nil && v.bufferSize == 4096 && len(v.buffer) == 4096 && allocated(v.buffer)
 //@    && v.fileSize == len(v.file.data) && 0 <= v.minOffset && v.minOffset <= v.maxOffset && v.maxOffset <= v.fileSize
 //@    && v.maxOffset - v.minOffset <= 4096 && v.minOffset <= v.currentOffset
 //@    && (forall k :: { v.buffer[k] } 0 <= k && k < v.maxOffset - v.minOffset ==> v.buffer[k] == sat(v.file.data, v.minOffset + k))
@@ -41,3 +41,45 @@ package files
 //@   loop 2 invariant progress: 0 <= outputOffset && outputOffset <= len(p) && v.currentOffset == c0 + outputOffset
 //@   loop 2 invariant copied: forall k :: { p[k] } 0 <= k && k < outputOffset ==> p[k] == sat(v.file.data, c0 + k)
 //@   loop 2 decreases len(p) - outputOffset
+
+// ---- Reader: the engine's only access path to the searched bytes ----
+// rdData(r) is the byte string behind the reader (the file's content, or the string given to
+// ReaderFromString); every operation below is specified as a function of rdData(r) alone, which
+// is what makes a file search and a string search of the same bytes indistinguishable (C07).
+
+//@ pred rdIsFile(r *Reader) := r.contents is *BufferedFile
+//@ pred rdBF(r *Reader) := r.contents as *BufferedFile
+//@ pred rdSR(r *Reader) := (r.contents as *StringReadSeekCloser).contents
+//@ pred rdData(r *Reader) := rdIsFile(r) ? rdBF(r).file.data : rdSR(r).s
+//@ pred rdPos(r *Reader) := rdIsFile(r) ? rdBF(r).currentOffset : rdSR(r).pos
+//@ pred rdInv(r *Reader) := r != nil && r.size == len(rdData(r))
+//@    && ((rdIsFile(r) && bfInv(rdBF(r)) && !rdBF(r).closed) || (r.contents is *StringReadSeekCloser && (r.contents as *StringReadSeekCloser) != nil && rdSR(r) != nil))
+
+//@ func ReaderFromString [C07]
+//@   ensures inv: rdInv(result) && fresh(result) && rdData(result) == contents && result.offset == 0 && rdPos(result) == 0
+
+//@ func (*Reader).Size [C07 C09]
+//@   requires v != nil
+//@   ensures result == v.size
+
+//@ func (*Reader).Seek [C07 C09]
+//@   requires rdInv(v) && offset >= 0
+//@   modifies v.offset, rdBF(v).minOffset, rdBF(v).maxOffset, rdBF(v).currentOffset, elems(rdBF(v).buffer), rdSR(v).pos
+//@   ensures inv: rdInv(v) && rdData(v) == old(rdData(v))
+//@   ensures pos: v.offset == offset && rdPos(v) == offset
+
+//@ func (*Reader).Read [C07 C09]
+//@   requires rdInv(v) && v.offset >= 0 && rdPos(v) == v.offset && length >= 0
+//@   modifies rdBF(v).minOffset, rdBF(v).maxOffset, rdBF(v).currentOffset, elems(rdBF(v).buffer), rdSR(v).pos
+//@   ensures inv: rdInv(v) && rdData(v) == old(rdData(v)) && v.offset == old(v.offset)
+//@   ensures ext: (length > 0 && v.offset + length <= v.size) ==> seqx(result, ssub(rdData(v), v.offset, v.offset + length))
+//@   ensures bytes: (length > 0 && v.offset + length <= v.size) ==> result == ssub(rdData(v), v.offset, v.offset + length)
+//@   ensures none: !(length > 0 && v.offset + length <= v.size) ==> result == ""
+
+//@ func (*Reader).ReadAt [C07 C09]
+//@   requires rdInv(v) && offset >= 0 && length >= 0
+//@   modifies v.offset, rdBF(v).minOffset, rdBF(v).maxOffset, rdBF(v).currentOffset, elems(rdBF(v).buffer), rdSR(v).pos
+//@   ensures inv: rdInv(v) && rdData(v) == old(rdData(v))
+//@   ensures ext: (length > 0 && offset + length <= v.size) ==> seqx(result, ssub(rdData(v), offset, offset + length))
+//@   ensures bytes: (length > 0 && offset + length <= v.size) ==> result == ssub(rdData(v), offset, offset + length)
+//@   ensures none: !(length > 0 && offset + length <= v.size) ==> result == ""
